@@ -8,6 +8,11 @@ cat = [e for e in json.load(open(catp)) if not e["id"].startswith("seeded-")]
 for mp in sorted(glob.glob(os.path.join(V, "seeded", "C*", "meta.json"))):
     m = json.load(open(mp))
     sid = m["id"]
+    if m.get("kind") == "benign":
+        props = sorted(set(([m["property"]] if m.get("property") else []) + (m.get("false_alarms_first_evaluation") or []) + (m.get("false_alarms") or [])))
+        cat.append({"id": "seeded-" + sid, "kind": "benign", "props": props, "patch": "seeded/%s/patch.diff" % sid,
+                    "note": "behaviour-preserving refactoring %s (property %s): %s" % (sid, m.get("property"), (m.get("summary") or "")[:300])})
+        continue
     det = m.get("detected_by") or []
     if not det:
         continue
